@@ -299,6 +299,29 @@ def _nonlinear_factors(exprs):
     return list(out.values())
 
 
+def _is_nonlinear(e):
+    """Does e contain a product of two non-constant terms or a division / modulo by a non-constant?"""
+    todo, seen = [e], set()
+    while todo:
+        x = todo.pop()
+        if x.get_id() in seen:
+            continue
+        seen.add(x.get_id())
+        if z3.is_quantifier(x):
+            todo.append(x.body())
+            continue
+        if z3.is_app(x):
+            k = x.decl().kind()
+            args = x.children()
+            if k == z3.Z3_OP_MUL and len([a for a in args if not (z3.is_int_value(a) or z3.is_rational_value(a))]) >= 2:
+                return True
+            if k in (z3.Z3_OP_DIV, z3.Z3_OP_IDIV, z3.Z3_OP_MOD) and len(args) == 2 and \
+                    not (z3.is_int_value(args[1]) or z3.is_rational_value(args[1])):
+                return True
+            todo.extend(args)
+    return False
+
+
 def _refine(assumptions, goal, budget_s, linearise=False):
     from .rel import EXT
     prem = [a for a in assumptions if is_z3(a)]
@@ -310,90 +333,175 @@ def _refine(assumptions, goal, budget_s, linearise=False):
         if not pins:
             return None
     # start from the quantifier-free premises next to the goal; quantified ones join when the model found needs them
-    keep = {a.get_id() for a in relevant(prem, goal, 1) if not _has_quantifier(a)}
+    #  (non-linear ones stay out too unless the goal itself is non-linear: with the quantified hints below they make the
+    #   very first query undecidable for the solver; a model that falsifies one brings it in)
+    goal_nl = _is_nonlinear(goal)
+    keep = {a.get_id() for a in relevant(prem, goal, 1) if not _has_quantifier(a) and (goal_nl or not _is_nonlinear(a))}
     deadline = time.time() + budget_s
     # concrete interpretations of some library functions (sound for refutation: they only remove models)
     allsyms = set(symbols(goal))
     for a in prem:
         allsyms |= symbols(a)
-    hints = [h for names, h in _lib2.REFUTE_HINTS if any(nm in allsyms for nm in names)]
+    hints_all = [(names, h) for names, h in _lib2.REFUTE_HINTS if any(nm in allsyms for nm in names)]
+    hints = [h for _n, h in hints_all]
 
     def solve(extra=()):
         left = deadline - time.time()
         if left <= 0.2:
             return None, None
         sv = _solver(int(min(left, 4) * 1000))
+        insyms = set(symbols(goal))
         for a in prem:
             if a.get_id() in keep:
                 sv.add(a)
+                insyms |= symbols(a)
         for a in extra:
             sv.add(a)
-        for h in hints:
-            sv.add(h)
+            insyms |= symbols(a)
+        # (only for functions the query mentions: a quantified definition of a function with no ground occurrence sends
+        #  the solver's model-based instantiation into a loop)
+        hinted = False
+        for names, h in hints_all:
+            if any(nm in insyms for nm in names):
+                sv.add(h)
+                hinted = True
         for h in pins:
             sv.add(h)
         sv.add(z3.Not(goal))
-        return sv.check(), sv
+        r_ = sv.check()
+        if r_ == z3.unsat and (hinted or pins):
+            r_ = z3.unknown      # `unsat` under EXTRA constraints proves nothing
+        return r_, sv
 
-    for _ in range(60):
+    dbg = os.environ.get("PYVC_DEBUG_REFINE")
+    if dbg == "2":
+        print("[refine] GOAL", str(goal)[:600].replace("\n", " "), file=sys.stderr)
+    for _it in range(60):
         r, sv = solve()
+        if dbg:
+            print(f"[refine] it={_it} keep={len(keep)}/{len(prem)} -> {r} left={deadline - time.time():.1f}s "
+                  f"{sv.reason_unknown() if r == z3.unknown else ''}", file=sys.stderr)
+        if dbg == "2" and r == z3.unknown:
+            for a in prem:
+                if a.get_id() in keep:
+                    print("[refine] P", " ".join(str(a).split())[:700], file=sys.stderr)
         if r == z3.unsat:
             return z3.unsat, sv
         if r != z3.sat:
             return None
         m = sv.model()
-        false_ones, unclear = [], []
+        try:
+            m0 = m.translate(z3.main_ctx())    # (evaluation WITH completion below adds default interpretations to m)
+        except z3.Z3Exception:
+            return None
+        interp = {d.name() for d in m0.decls()}
+        # --- every premise left out is PARTIALLY evaluated: the model's values are substituted, what remains (the
+        #     residue) speaks only of symbols the model does not interpret.  True: satisfied whatever those symbols
+        #     are.  False: the premise joins the solved part.  Otherwise the residues are grouped by shared symbols and
+        #     each group is decided on its own: the union of the model with one model per group satisfies every
+        #     premise and the negated goal - a genuine counter-model.
+        false_ones, items, unclean = [], [], []
         for a in prem:
             if a.get_id() in keep:
                 continue
             try:
-                v = m.eval(a, model_completion=True)
+                ra = m0.eval(a, model_completion=False)
             except z3.Z3Exception:
-                v = None
-            if v is not None and z3.is_true(v):
+                unclean.append(a)
                 continue
-            (false_ones if (v is not None and z3.is_false(v)) else unclear).append(a)
+            if z3.is_true(ra):
+                continue
+            if z3.is_false(ra):
+                false_ones.append(a)
+                continue
+            sy = set(symbols(ra))
+            if sy & interp:
+                unclean.append(a)      # (the evaluator left an interpreted symbol in place: decided with the solved part)
+            else:
+                items.append((a, ra, sy))
+        if dbg:
+            print(f"[refine]   false={len(false_ones)} residues={len(items)} unclean={len(unclean)}", file=sys.stderr)
         if false_ones:
             for a in false_ones:
                 keep.add(a.get_id())
             continue
-        if not unclear:
-            return z3.sat, sv
-        # premises the evaluator cannot decide under this model
-        used_syms = set(symbols(goal))
-        for a in prem:
-            if a.get_id() in keep:
-                used_syms |= symbols(a)
-        # (a) library characterisations of fresh symbols that the solved part does not mention: conservative extensions
-        rest = []
-        for a in unclear:
-            ent = EXT.get(a.get_id())
-            if ent is not None and ent[0].eq(a) and ent[1] and not (ent[1] & used_syms):
+        groups = []
+        for it_ in items:
+            merged = [g for g in groups if g[1] & it_[2]]
+            ng = ([it_], set(it_[2]))
+            for g in merged:
+                ng[0].extend(g[0])
+                ng[1].update(g[1])
+                groups.remove(g)
+            groups.append(ng)
+        undecided, added = list(unclean), False
+        for g_items, g_syms in groups:
+            # (i) every member holds under the model completed with default values for the group's symbols; in a large
+            #     group the members that are FALSE under those defaults join the solved part (the next model is built
+            #     around them) instead of handing the whole group to the solver
+            try:
+                vals = [m.eval(a, model_completion=True) for a, _r, _s in g_items]
+                if all(z3.is_true(v) for v in vals):
+                    continue
+                fl = [a for (a, _r, _s), v in zip(g_items, vals) if z3.is_false(v)]
+                if fl and len(g_items) > 6:
+                    for a in fl:
+                        keep.add(a.get_id())
+                    added = True
+                    if dbg:
+                        print(f"[refine]   group of {len(g_items)}: {len(fl)} false under default completion join", file=sys.stderr)
+                    continue
+            except z3.Z3Exception:
+                pass
+            # (ii) the group is one family of library facts characterising fresh symbols (conservative extension) and
+            #      nothing else mentions those symbols
+            ents = [EXT.get(a.get_id()) for a, _r, _s in g_items]
+            if all(e is not None and e[0].eq(a) and e[1] for e, (a, _r, _s) in zip(ents, g_items)):
+                fresh_syms = set().union(*[e[1] for e in ents])
+                if not (fresh_syms & interp) and g_syms <= fresh_syms:
+                    continue
+            # (iii) the solver decides the group
+            left = deadline - time.time()
+            if left <= 0.3:
+                undecided.extend(a for a, _r, _s in g_items)
                 continue
-            rest.append(a)
-        # (b) premises that share no symbol (transitively, among themselves) with the solved part: independent
-        dep, indep = [], list(rest)
-        changed = True
-        while changed:
-            changed = False
-            for a in list(indep):
-                if symbols(a) & used_syms:
-                    indep.remove(a)
-                    dep.append(a)
-                    used_syms |= symbols(a)
-                    changed = True
-        if indep:
-            sd = _solver(2000)
-            for a in indep:
-                sd.add(a)
-            if sd.check() == z3.unsat:
-                return None
-        if not dep:
+            sd = _solver(int(min(left, 2) * 1000))
+            sd.set("smt.macro_finder", True)     # residues are full of quantified DEFINITIONS of fresh functions
+            tags = {}
+            for k_, (a, ra, _s) in enumerate(g_items):
+                t_ = z3.Bool(f"__res{k_}")
+                tags[t_.get_id()] = a
+                sd.assert_and_track(ra, t_)
+            for names, h in hints_all:
+                if any(nm in g_syms for nm in names):
+                    sd.add(h)
+            # an injective integer-valued dictionary: the identity is one (extra constraints only lose models; an
+            # unsatisfiable core found with them merely sends premises to the solved part)
+            for (a, ra, _s) in g_items:
+                for fd in _get_functions(ra):
+                    x_ = z3.Int("hint_gx")
+                    sd.add(z3.ForAll([x_], fd(x_) == x_))
+            rr_ = sd.check()
+            if dbg:
+                print(f"[refine]   residue group of {len(g_items)}: {rr_}", file=sys.stderr)
+                if rr_ == z3.unknown and dbg == "4":
+                    for a, ra, _s in g_items:
+                        print("[refine]     R:", " ".join(str(ra).split())[:900], file=sys.stderr)
+            if rr_ == z3.unsat:
+                core = [tags[c_.get_id()] for c_ in sd.unsat_core() if c_.get_id() in tags]
+                for a in (core or [a for a, _r, _s in g_items]):
+                    keep.add(a.get_id())
+                added = True
+            elif rr_ != z3.sat:
+                undecided.extend(a for a, _r, _s in g_items)
+        if added:
+            continue
+        if not undecided:
             return z3.sat, sv
-        # (c) the dependent ones join the solved part - one at a time: a single premise the solver cannot handle must
-        #     not hide the others
+        # (c) premises of undecided groups join the solved part - one at a time: a single premise the solver cannot
+        #     handle must not hide the others
         progressed = False
-        for a in sorted(dep, key=lambda x: len(str(x))):
+        for a in sorted(undecided, key=lambda x: len(str(x))):
             r2, _ = solve(extra=[a])
             if r2 == z3.sat or r2 == z3.unsat:
                 keep.add(a.get_id())
@@ -403,6 +511,26 @@ def _refine(assumptions, goal, budget_s, linearise=False):
         if not progressed:
             return None
     return None
+
+
+def _get_functions(e):
+    """Function symbols `<dict>#get : Int -> Int` occurring in e."""
+    out, todo, seen = {}, [e], set()
+    while todo:
+        x = todo.pop()
+        if x.get_id() in seen:
+            continue
+        seen.add(x.get_id())
+        if z3.is_quantifier(x):
+            todo.append(x.body())
+            continue
+        if z3.is_app(x):
+            d = x.decl()
+            if d.kind() == z3.Z3_OP_UNINTERPRETED and d.name().endswith("#get") and d.arity() == 1 and \
+                    d.domain(0) == z3.IntSort() and d.range() == z3.IntSort():
+                out[d.name()] = d
+            todo.extend(x.children())
+    return list(out.values())
 
 
 def _has_quantifier(e):
@@ -565,8 +693,12 @@ def parallel_discharge(obs, timeout_s, pre, jobs=None, chunk=8):
     jobs = jobs or int(os.environ.get("PYVC_JOBS", "12"))
     tmpdir = tempfile.mkdtemp(prefix="pyvc_ob_", dir=os.environ.get("PYVC_TMP"))
     pending = []
+    only = os.environ.get("PYVC_ONLY")      # diagnosis: discharge only the obligations whose name contains this
     for i, ob in enumerate(obs):
         ob.witness = None
+        if only and only not in ob.name:
+            ob.verdict, ob.backend = "proved", "skipped-by-PYVC_ONLY"
+            continue
         if isinstance(ob.goal, bool) and ob.goal:
             ob.verdict, ob.backend = "proved", "eval"
         else:
